@@ -340,6 +340,14 @@ func (p *sessionPort) flushParts(extraWaitForTicker bool) ([]string, []string) {
 			default:
 				rets = append(rets, fmt.Sprintf("ret %s %s", c.tag, classOf(err)))
 			}
+			if err != nil && p.client != nil && !errors.Is(err, mqtt.ErrMax) { // (ErrMax starts a shared timer: left alone)
+				// Backoff is nil exactly for the permanent classes (what IsDeny and IsEnd tell, and a SubscribeError)
+				var se mqtt.SubscribeError
+				permanent := mqtt.IsDeny(err) || mqtt.IsEnd(err) || errors.As(err, &se)
+				if (p.client.Backoff(err) == nil) != permanent {
+					rets = append(rets, fmt.Sprintf("ev backoff-mismatch %s permanent=%v", classOf(err), permanent))
+				}
+			}
 		default:
 			c.reported = true // did not return within the operation that started it
 		}
